@@ -158,6 +158,7 @@ impl SocksListener {
             .set_callback(Callback {
                 version: request.version,
                 listen_addr: None,
+                replied: Default::default(),
             })
             .set_client_stream(socket);
 
@@ -209,6 +210,7 @@ impl SocksListener {
                     .set_callback(Callback {
                         version: request.version,
                         listen_addr: Some(listen_addr),
+                        replied: Default::default(),
                     })
                     .set_idle_timeout(state.timeouts.udp);
                 ctx.enqueue(&queue).await?;
@@ -225,11 +227,16 @@ impl SocksListener {
 struct Callback {
     version: u8,
     listen_addr: Option<SocketAddr>,
+    // a UDP association keeps its control connection: once the success reply is out, a later
+    // error (idle timeout) must not add a failure reply to it
+    replied: std::sync::atomic::AtomicBool,
 }
 
 #[async_trait]
 impl ContextCallback for Callback {
     async fn on_connect(&self, ctx: &mut Context) {
+        self.replied
+            .store(true, std::sync::atomic::Ordering::Relaxed);
         let version = self.version;
         let cmd = SOCKS_REPLY_OK;
         let target = self.listen_addr.map_or_else(|| ctx.target(), |x| x.into());
@@ -248,7 +255,7 @@ impl ContextCallback for Callback {
         let cmd = SOCKS_REPLY_GENERAL_FAILURE;
         let target = "0.0.0.0:0".parse().unwrap();
         let socket = ctx.borrow_client_stream();
-        if socket.is_none() {
+        if socket.is_none() || self.replied.load(std::sync::atomic::Ordering::Relaxed) {
             return;
         }
         let resp = SocksResponse {
